@@ -327,6 +327,7 @@ func genC11(r *Rand, tier string, i int) *h.Scenario {
 	p.PClientAdd = 0.2
 	p.PQueueAfter = 0
 	p.WGet = 8
+	p.WTotal = 4 // late size corrections on a bar that has finished: valid, ignored, and they change nothing
 	p.PLate = 0.5
 	p.MaxBars = 4
 	sc := GenBase(r, &p)
